@@ -15,6 +15,16 @@ fn main() {
         let Some(path) = args.get(1) else { usage() };
         std::process::exit(rt::props::replay_file(std::path::Path::new(path)));
     }
+    if args[0] == "--sub-json" {
+        let prop = args.get(1).cloned().unwrap_or_default();
+        let tier = if args.get(2).map(|s| s == "thorough").unwrap_or(false) { Tier::Thorough } else { Tier::Quick };
+        // variant runs use a fraction of the std budget: same generators, fewer cases
+        let ctx = Ctx::new(&prop, if std::env::var_os("VERIF_VARIANT_FULL").is_some() { tier } else { Tier::Quick });
+        let _ = tier;
+        rt::props::print_sub_reports(&ctx);
+        return;
+    }
+    #[cfg(feature = "std")]
     if args[0] == "--child-c11" {
         let Some(json) = args.get(1) else { usage() };
         rt::props::c11::child_main(json);
